@@ -97,8 +97,8 @@ m = {
  "version": 1,
  "setup_cmd": "cd /verif && ./vcheck list",
  "hooks": {
-   "guard": "jsonb_verif (reserved cfg name; no hook was needed: every property is observable through the public API)",
-   "enable": "none needed; checks build /repo's working tree as a path dependency of /verif/harness with overflow checks and debug assertions on",
+   "guard": "jsonb_verif",
+   "enable": "no hook exists: every property is observable through the public API, so the reserved cfg jsonb_verif guards nothing and source_commits is empty; checks build /repo's working tree as a path dependency of /verif/harness (release profile with overflow checks and debug assertions on)",
    "baseline_off_cmd": "cd /repo && cargo test --workspace --no-fail-fast --offline",
    "source_commits": hooks_commits,
    "add_only": True,
